@@ -179,8 +179,10 @@ def queries(h, cfg):
             bad.append(z3.And(core, z3.Or(srs != rs, sws != ws)))
             bad.append(z3.And(core, z3.Or(rs, ws), z3.Or(f.sig(sub.addr) != z3.Extract(sub.addr_width - 1, 0, A),
                                                       f.sig(sub.w_data) != f.sig(bus.w_data))))
-            # outside the window's range: never strobed
-            bad.append(z3.And(z3.Not(own), z3.Or(srs, sws)))
+            # outside the window proper - also in the padding that a decoder alignment larger than the subordinate's
+            # address width adds to the allocated range, where the memory map reports nothing: never strobed (the
+            # registers behind the window must not alias onto addresses the map reports as free)
+            bad.append(z3.And(z3.Not(core), z3.Or(srs, sws)))
         for rb in h.rej:
             bad.append(z3.Or(is1(f.sig(rb.r_stb)), is1(f.sig(rb.w_stb))))
         return [], z3.Or(*bad) if bad else z3.BoolVal(False)
